@@ -150,6 +150,19 @@ def search(chk, broken):
         if [key(r) for r in fire(ws)] != [key(r) for r in a]:
             chk.failures.append(Failure('zero-wind-in-place', 'wind objects already used by a shot and then set to zero speed IN PLACE differ from no wind',
                                         {'op': 'zero-wind-in-place', 'untils_ft': untils}))
+        # 4b. a bare-number direction means that number in the PREFERRED angular unit (whatever it is, negative numbers and numbers beyond
+        #     one turn of degrees included): the wind built from the bare number is the wind built from the explicit quantity
+        try:
+            pu = rng.choice([U.Radian, U.Mil, U.MOA, U.Degree, U.MRad])
+            pbc.PreferredUnits.angular = pu
+            num = rng.choice([-1, 1]) * (U.Degree(rng.uniform(20, 160)) >> pu) * rng.choice([1, 1, 3])
+            wb = [pbc.Wind(U.MPH(12), num, U.Foot(1e7))]
+            wq = [pbc.Wind(U.MPH(12), pu(num), U.Foot(1e7))]
+        finally:
+            pbc.PreferredUnits.defaults()
+        if [key(r) for r in fire(wb)] != [key(r) for r in fire(wq)]:
+            chk.failures.append(Failure('bare-direction', f'Wind(direction_from={num!r}) under preferred angular unit {pu.name} differs from Wind(direction_from={pu.name}({num!r}))',
+                                        {'op': 'wind-bare-direction', 'preferred': pu.name, 'number': num}))
         # 5. wind from the left deflects to the right; head and tail winds act in opposite senses
         v = U.MPH(rng.uniform(5, 20))
         none_ = fire([])
